@@ -1,6 +1,7 @@
 """Property -> units / harnesses / stated assumptions.  Units are /verif/units/<name>.vrs."""
 
 UNIT_NOTES = {
+    "txstore": "C06/C05 tail of add_tx_to_block's closure (N10-lift): values handed to set_tx_receipt (cumulative gas, first log index, hash, index, nonce, gas limit) and the advance of LastBlockInfo (waiting count, gas, log index); the EVM run before it is dropped (its output and trace are parameters)",
     "rawtx": "C08 what a signed raw transaction turns into: TxInfo::{from_inscription, from_raw_transaction, from_saved_transaction, to_address_optional} and get_info_from_raw_tx on their real bodies (alloy RLP decoding, signature recovery and keccak as uninterpreted functions of their inputs)",
     "codec_trace": "C14 record codec of the recursive TraceED (enc / dec read off the real impls, N37); Vec<TraceED> is an assumed leaf here",
     "dbslot": "C09 engine database slot: the three closures that run the EVM (read_contract, read_contract_multi, add_tx_to_block) lifted into functions; mem::take ... mem::swap puts the database back on every exit path",
@@ -120,17 +121,17 @@ PROPS["C04"] = {
     "assumptions": ["each put/delete is atomic and durable in program order (DB shim)", "multi-table recovery is argued in DESIGN.md, not checked"],
 }
 PROPS["C05"] = {
-    "units": ["engine", "dbfacade", "payload"],
+    "units": ["engine", "dbfacade", "payload", "txstore"],
     "kani": [],
-    "level_text": "Proof of the rejection kernel: validate_next_tx (closure inlined) accepts iff tx_idx equals the number of transactions in the block, timestamp/hash equal those of the block under construction, and the block does not exist; commit_to_db / reorg / mine_blocks / finalise_block / add_tx_to_block reach their store mutation sites only behind those guards (site preconditions, rule N10); set_block_hash / set_tx_receipt: an existing hash or height gives Err and *final == *old; select_bytes accepts exactly one of the two encodings.",
+    "level_text": "Proof of the rejection kernel: validate_next_tx (closure inlined) accepts iff tx_idx equals the number of transactions in the block, timestamp/hash equal those of the block under construction, and the block does not exist; commit_to_db / reorg / mine_blocks / finalise_block / add_tx_to_block reach their store mutation sites only behind those guards (site preconditions, rule N10); set_block_hash / set_tx_receipt: an existing hash or height gives Err and *final == *old; select_bytes accepts exactly one of the two encodings; the count of transactions waiting to be finalised advances by exactly one per stored transaction (tail of add_tx_to_block's closure, unit txstore), which is what validate_next_tx and finalise_block compare the supplied index / count with.",
     "level_note": COMMON_TRUST + "SharedData is modelled sequentially; closure bodies handed to write_fn (EVM run, receipt bookkeeping) are replaced by guarded sites, so `leaves the instance exactly as it was` is NOT proved for errors raised after partial execution inside those closures (revm). Handlers in rpc_server.rs are async and outside the kernel.",
     "assumptions": ["closure bodies passed to SharedData::write_fn are outside the proof (N10)", "sequential model of SharedData"],
 }
 PROPS["C06"] = {
-    "units": ["dbfacade", "scalars", "engine"],
+    "units": ["dbfacade", "scalars", "engine", "txstore"],
     "kani": [],
-    "level_text": "Proof on Brc20ProgDatabase::set_tx_receipt: after Ok the transaction row, the receipt row, the (block,index)->hash row and the inscription->hash row all carry the same hash, block hash, block number and index; set_block_hash: number->hash and hash->number invert each other; LogED::new_vec: log indexes run contiguously from the start index and every log carries its transaction's hash, index, block hash and number; get_block_tx_count = number of (block,index) rows of the block; generate_block on its real body: the block lists exactly the transaction hashes recorded under (block, 0), (block, 1), .. in index order, its count field is their number, it carries the number and hash it was generated for, its parent is the recorded hash of the previous block (zero for block 0) and a missing parent is an error; add_tx_to_block stores transaction, receipt and trace under get_tx_hash(tx, account nonce) (site precondition) and get_tx_hash is the keccak of sender, nonce, target, data (functional postcondition); eth_getLogs order (C18).",
-    "level_note": COMMON_TRUST + "Narrow. Rule N29 keeps only the index arguments of TxReceiptED::new / TxED::new (the other arguments are revm/alloy values). NOT covered: the running start index and cumulative gas handed to these functions (closure in add_tx_to_block), bloom and merkle root (dropped from generate_block by N13: uninterpreted libraries), raw block encodings (alloy RLP), the generate_raw_block body, `receipt returned is the one later served` (engine closure).",
+    "level_text": "Proof on Brc20ProgDatabase::set_tx_receipt: after Ok the transaction row, the receipt row, the (block,index)->hash row and the inscription->hash row all carry the same hash, block hash, block number and index; set_block_hash: number->hash and hash->number invert each other; LogED::new_vec: log indexes run contiguously from the start index and every log carries its transaction's hash, index, block hash and number; get_block_tx_count = number of (block,index) rows of the block; generate_block on its real body: the block lists exactly the transaction hashes recorded under (block, 0), (block, 1), .. in index order, its count field is their number, it carries the number and hash it was generated for, its parent is the recorded hash of the previous block (zero for block 0) and a missing parent is an error; add_tx_to_block stores transaction, receipt and trace under get_tx_hash(tx, account nonce) (site precondition) and get_tx_hash is the keccak of sender, nonce, target, data (functional postcondition); the tail of add_tx_to_block's closure (lifted, unit txstore): the receipt is stored with the block's running gas total INCLUDING this transaction as cumulative gas and with the block's running log count BEFORE it as first log index, under the hash / index / number / nonce / gas limit of this transaction; afterwards the running totals have advanced by exactly this transaction (one more waiting transaction, gas, logs), and the receipt handed back is the one the store serves; eth_getLogs order (C18).",
+    "level_note": COMMON_TRUST + "Narrow. Rule N29 keeps only the index arguments of TxReceiptED::new / TxED::new (the other arguments are revm/alloy values). NOT covered: bloom and merkle root (dropped from generate_block by N13: uninterpreted libraries), raw block encodings (alloy RLP), the generate_raw_block body.",
     "assumptions": ["N29: constructors reduced to their index arguments; BlockResponseED::new assumed to store hash / count / number / transactions / parent hash in the fields of that name", "generate_raw_block not under contract", "U128ED compares as its encoding does (Kani u128ed_order)"],
 }
 PROPS["C08"] = {
